@@ -7,6 +7,7 @@ import (
 	"io"
 	"math"
 	"os"
+	"reflect"
 	"slices"
 	"strings"
 	"unsafe"
@@ -297,8 +298,10 @@ func (f *BytecodeFunction) AddValue(obj value.Value) (int, IntSize) {
 	if obj.IsReference() {
 		objRef := obj.AsReference()
 		i := -1
+		// values of uncomparable Go types (eg. records backed by a Go map) cannot be deduplicated with ==
+		comparable := reflect.TypeOf(objRef).Comparable()
 		for j, value := range f.Values {
-			if !value.IsReference() {
+			if !comparable || !value.IsReference() {
 				continue
 			}
 
